@@ -145,13 +145,14 @@ func C18(tier string) int {
 		r, err := rig.NewSignerRig(rig.SignerOpts{
 			Wallets: []string{"W1", "W2"}, DistWallets: []string{"D1"}, Permissions: toPerms(table), Full: true,
 			Populate: func(ctx context.Context, store e2wtypes.Store, enc e2wtypes.Encryptor) error {
+				// (W1/A.c is the exact name of one account and, read as the pattern it is, matches two more.)
 				// One key is held under two wallets (W1/b and W2/z are the same validator key, as after a migration
 				// between wallets): both accounts exist and are listed.
 				shared := rig.NewKey()
 				for _, wn := range []struct {
 					w     string
 					names []string
-				}{{"W1", []string{"acc", "accx", "b", "A.c"}}, {"W2", []string{"acc", "z"}}} {
+				}{{"W1", []string{"acc", "accx", "b", "A.c", "A-c", "Abc"}}, {"W2", []string{"acc", "z"}}} {
 					w, names := wn.w, wn.names
 					wl, err := nd.OpenWallet(ctx, w, store, enc)
 					if err != nil {
